@@ -184,6 +184,9 @@ fn cookie_options(header: Option<String>) -> CookieOptions<Locale> {
     CookieOptions::<Locale>::default()
         .ssr_cookies_header_getter(move || header.clone())
         .ssr_set_cookie(|_: &_| {})
+        // a cookie value that is not a locale name is reported through this callback; the default
+        // one prints to stderr
+        .on_error(std::sync::Arc::new(|_| {}))
 }
 
 fn lang_options(header: Option<String>) -> UseLocalesOptions {
@@ -229,12 +232,14 @@ fn observe(case: &Case) -> Locale {
                 )
                 .get_locale_untracked()
             });
-            std::mem::forget(child);
+            // queued effects are dropped unrun before their owner goes away (see exec.rs)
+            crate::exec::clear();
+            drop(child);
             got
         }
     });
-    // owners are kept alive on purpose (isomorphic effects of disposed owners panic at exit)
-    std::mem::forget(owner);
+    crate::exec::clear();
+    drop(owner);
     got
 }
 
@@ -485,7 +490,7 @@ fn random_case(t: &mut Tape) -> CaseResult {
 }
 
 pub fn run(mut ctx: Ctx) -> ! {
-    let _ = any_spawner::Executor::init_futures_executor();
+    crate::exec::init();
     if let Some(path) = ctx.replay.clone() {
         let engine = Ctx::replay_engine(&path).unwrap_or_default();
         if engine == "rand" {
@@ -512,7 +517,7 @@ pub fn run(mut ctx: Ctx) -> ! {
             "exhaustive_domain",
             json!("53 Cookie headers x 15 Accept-Language headers x ( {cookies on/off} x {default, custom cookie name} x {context, resolve_locale_with_options}  +  sub-context: {no cookie name, default, custom} x {no parent, parent in en/fr/de} x {no initial_locale, en/fr/de} )"),
         );
-        let cases = ctx.tier.scale(4_000, 150_000);
+        let cases = ctx.tier.scale(300_000, 5_000_000);
         ctx.run_tapes("rand", cases, 48, random_case);
     }
     ctx.finish(
